@@ -371,8 +371,8 @@ def load_line(via, kind, st, h, opt):
     return "LG %d %d %d" % (st, h, opt) if via == "LG" else "LK %s %d %d %d" % (kind, st, h, opt)
 
 
-# objects that are only usable after load (a recorded finding: XBW builds a save-only object)
-SAVE_ONLY_WHEN_BUILT = {"XBW"}
+# kinds whose built object can only be saved (none since the XBW constructor was repaired; the mechanism stays)
+SAVE_ONLY_WHEN_BUILT = set()      # was {"XBW"} until the constructor was repaired (fix: in /repo) to build its index
 
 
 class Prog:
